@@ -36,6 +36,7 @@ const (
 const (
 	MCall = "s_call"
 	MExch = "s_exch"
+	MProd = "s_prod"
 )
 
 // Sess is the harness's record of one session a handler opened.
@@ -180,7 +181,35 @@ var exchIn = arrow.NewSchema([]arrow.Field{{Name: "x", Type: arrow.PrimitiveType
 // runs the request named by the input batch inside the resumed session.
 type ExchS struct{ Turns int }
 
-func init() { vgirpc.RegisterStateType(&ExchS{}) }
+func init() {
+	vgirpc.RegisterStateType(&ExchS{})
+	vgirpc.RegisterStateType(&ProdS{})
+}
+
+// ProdS is the producer state of the sticky producer stream: its first Produce
+// turn — which over HTTP runs inside the /init request, after the init handler
+// has returned — runs the same request once more inside the resumed session,
+// the second one finishes the stream.
+type ProdS struct {
+	Req   int64
+	Turns int
+}
+
+// Produce implements vgirpc.ProducerState.
+func (s *ProdS) Produce(_ context.Context, out *vgirpc.OutputCollector, cc *vgirpc.CallContext) error {
+	if s.Turns >= 1 {
+		return out.Finish()
+	}
+	s.Turns++
+	if w := Cur; w != nil {
+		if rq := w.Reqs[s.Req]; rq != nil {
+			if err := w.serve(cc, rq); err != nil {
+				return err
+			}
+		}
+	}
+	return emitOne(out, int64(s.Turns))
+}
 
 // Exchange implements vgirpc.ExchangeState.
 func (s *ExchS) Exchange(_ context.Context, input arrow.RecordBatch, out *vgirpc.OutputCollector, cc *vgirpc.CallContext) error {
@@ -235,6 +264,17 @@ func register(srv *vgirpc.Server) {
 			}
 		}
 		return &vgirpc.StreamResult{OutputSchema: exchOut, InputSchema: exchIn, State: &ExchS{}}, nil
+	})
+	vgirpc.Producer(srv, MProd, exchOut, func(_ context.Context, cc *vgirpc.CallContext, p callParams) (*vgirpc.StreamResult, error) {
+		w := Cur
+		if w != nil {
+			if rq := w.Reqs[p.Req]; rq != nil {
+				if err := w.serve(cc, rq); err != nil {
+					return nil, err
+				}
+			}
+		}
+		return &vgirpc.StreamResult{OutputSchema: exchOut, State: &ProdS{Req: p.Req}}, nil
 	})
 }
 
@@ -540,6 +580,9 @@ func (w *World) Send(rq *Req, token string) *Result {
 	case "sinit":
 		body := hx.RawRequestBytes(hx.Int64Batch("req", []int64{rq.ID}, false), hx.M(hx.KMethod, MExch, hx.KReqVersion, "1"))
 		resp = httpw.Post(inst, "/"+MExch+"/init", body, id, w.headers(token, false))
+	case "pinit":
+		body := hx.RawRequestBytes(hx.Int64Batch("req", []int64{rq.ID}, false), hx.M(hx.KMethod, MProd, hx.KReqVersion, "1"))
+		resp = httpw.Post(inst, "/"+MProd+"/init", body, id, w.headers(token, false))
 	case "turn":
 		body := httpw.ContBody(rq.Cursor, rq.Call, false, []int64{rq.ID}, false, hx.Meta{})
 		resp = httpw.Post(inst, "/"+MExch+"/exchange", body, id, w.headers(token, false))
